@@ -708,7 +708,15 @@ func display(computer *ComputedStyle, _ pr.KnownProp, _value pr.CssProperty) pr.
 	value := _value.(pr.Display)
 	float_ := computer.specified.Float
 	position := computer.specified.Position
-	if (!position.Bool && (position.String == "absolute" || position.String == "fixed")) || float_ != "none" || computer.isRootElement() {
+	// The display value of a flex or grid item (a child element or the ::before / ::after
+	// pseudo-element of a flex or grid container) is blockified, see
+	// https://www.w3.org/TR/css-flexbox-1/#flex-items and https://www.w3.org/TR/css-grid-1/#grid-items
+	isItem := false
+	if p := computer.parentStyle; p != nil && (computer.pseudoType == "" || computer.pseudoType == "before" || computer.pseudoType == "after") {
+		inner := p.GetDisplay()[1]
+		isItem = inner == "flex" || inner == "grid"
+	}
+	if (!position.Bool && (position.String == "absolute" || position.String == "fixed")) || float_ != "none" || computer.isRootElement() || isItem {
 		if d := value[0]; value[1] == "" && value[2] == "" && strings.HasPrefix(d, "table-") {
 			return pr.Display{"block", "flow"}
 		} else if d == "inline" {
